@@ -60,7 +60,10 @@ def remove_mm_fields_if_present(raw_block_hex, leave_btcblock=True, hex=True):
     else:
         block_without_mm_fields = block if leave_btcblock else block[:-1]
 
-    block_without_mm_fields_rlp = rlp.encode(block_without_mm_fields)
+    try:
+        block_without_mm_fields_rlp = rlp.encode(block_without_mm_fields)
+    except Exception as e:
+        raise ValueError(e)
 
     if not hex:
         return block_without_mm_fields_rlp
